@@ -198,6 +198,7 @@ type scenario struct {
 	fsCode uint32
 	fsMsg  []byte
 	tm     [][2]string
+	hm     [][2]string // scripted response header metadata of the target (gRPC-WebSocket sessions)
 	early  int
 	delay  time.Duration // pause of the target between its last message and its final status
 	method *bridgedesc.Method
@@ -209,6 +210,7 @@ type scenario struct {
 	sd        [][]byte
 	sdFail    int
 	tr        string
+	sh        string // what the forwarder handed to SetHeader
 	fmd       string // metadata.FromIncomingContext inside Forward ("none" = Forward not entered)
 	oc        string
 	wake      chan struct{}
@@ -228,7 +230,7 @@ var (
 
 func newScenario(kv map[string]string) *scenario {
 	id := seq.Add(1)
-	sc := &scenario{kind: kv["k"], rt: kv["rt"], early: -1, te: "none", oc: "-", tr: "-", fmd: "none", wake: make(chan struct{}), done: make(chan struct{}),
+	sc := &scenario{kind: kv["k"], rt: kv["rt"], early: -1, te: "none", oc: "-", tr: "-", sh: "-", fmd: "none", wake: make(chan struct{}), done: make(chan struct{}),
 		fwdDone: make(chan struct{}), sendIn: make(chan struct{}), sendOut: make(chan struct{})}
 	switch {
 	case kv["tr"] == "tws":
@@ -247,6 +249,10 @@ func newScenario(kv map[string]string) *scenario {
 	for _, it := range unList(kv["tm"]) {
 		k, v, _ := strings.Cut(it, ":")
 		sc.tm = append(sc.tm, [2]string{string(UnCB(k)), string(UnCB(v))})
+	}
+	for _, it := range unList(kv["hm"]) {
+		k, v, _ := strings.Cut(it, ":")
+		sc.hm = append(sc.hm, [2]string{string(UnCB(k)), string(UnCB(v))})
 	}
 	if kv["ea"] != "-" && kv["ea"] != "" {
 		sc.early, _ = strconv.Atoi(kv["ea"])
@@ -445,7 +451,23 @@ func (s *recStream) Send(ctx context.Context, msg proto.Message) error {
 	return err
 }
 
-func (s *recStream) SetHeader(md metadata.MD) { s.inner.SetHeader(md) }
+// SetHeader records the response header metadata the forwarder hands to the stream (flattened, sorted).
+func (s *recStream) SetHeader(md metadata.MD) {
+	var items []string
+	for k, vs := range md {
+		for _, v := range vs {
+			items = append(items, CB([]byte(k))+":"+CB([]byte(v)))
+		}
+	}
+	sort.Strings(items)
+	s.sc.mu.Lock()
+	s.sc.sh = "-"
+	if len(items) > 0 {
+		s.sc.sh = strings.Join(items, ",")
+	}
+	s.sc.mu.Unlock()
+	s.inner.SetHeader(md)
+}
 
 // SetTrailer records the trailer metadata the forwarder hands to the stream (flattened, sorted).
 func (s *recStream) SetTrailer(md metadata.MD) {
@@ -526,7 +548,13 @@ func (t *targetStream) Recv(ctx context.Context, msg proto.Message) error {
 	return status.Error(codes.Code(t.sc.fsCode), string(t.sc.fsMsg))
 }
 
-func (t *targetStream) Header() metadata.MD { return metadata.MD{} }
+func (t *targetStream) Header() metadata.MD {
+	md := metadata.MD{}
+	for _, kv := range t.sc.hm {
+		md.Append(kv[0], kv[1])
+	}
+	return md
+}
 
 func (t *targetStream) Trailer() metadata.MD {
 	md := metadata.MD{}
@@ -562,10 +590,13 @@ var (
 // trailer metadata keys the forwarder's filter lets through (the filter itself is C07's subject)
 var allowTrailer = []string{"x-t", "x-u", "grpc-status", "grpc-message", "x-bin", "grpc-status-details-bin"}
 
+// response header metadata keys the filter lets through: over gRPC-WebSocket they travel in the header frame (lpmTrailer)
+var allowHeader = []string{"x-h", "x-h-bin"}
+
 func servers() {
 	srvOnce.Do(func() {
 		fwd := recFwd{grpcadapter.NewProxyForwarder(grpcadapter.ProxyForwarderOpts{
-			Filter: grpcadapter.NewProxyMDFilter(grpcadapter.ProxyMDFilterOpts{AllowTrailerMD: allowTrailer}),
+			Filter: grpcadapter.NewProxyMDFilter(grpcadapter.ProxyMDFilterOpts{AllowTrailerMD: allowTrailer, AllowResponseMD: allowHeader}),
 		})}
 		opts := webbridge.GRPCWebBridgeOpts{Logger: bridgelog.Discard(), Forwarder: fwd}
 		web := webbridge.NewGRPCWebBridge(router{}, opts)
@@ -791,7 +822,7 @@ func (sc *scenario) observed() string {
 	if len(sc.rv) > 0 {
 		rv = strings.Join(sc.rv, ",")
 	}
-	return fmt.Sprintf("rv=%s tg=%s te=%s sd=%s sf=%d tr=%s md=%s oc=%s", rv, cbList(sc.tg), sc.te, cbList(sc.sd), sc.sdFail, sc.tr, sc.fmd, sc.oc)
+	return fmt.Sprintf("rv=%s tg=%s te=%s sd=%s sf=%d tr=%s md=%s oc=%s sh=%s", rv, cbList(sc.tg), sc.te, cbList(sc.sd), sc.sdFail, sc.tr, sc.fmd, sc.oc, sc.sh)
 }
 
 func chunkPattern(s string) []int {
@@ -1780,7 +1811,25 @@ func genWS(r *rand.Rand) string {
 	if r.Intn(10) == 0 {
 		via = " via=root"
 	}
-	return fmt.Sprintf("ws k=%s cd=%s rt=%s hd=%s ms=%s %s ea=%s%s", kind, codec, genRoute(r), hd, ms, genScript(r, codec), ea, via)
+	hm := ""
+	if r.Intn(8) == 0 {
+		// response header metadata: over gRPC-WebSocket it is written into the header frame by the same lpmTrailer
+		k := common.Pick(r, []string{"x-h", "x-h-bin"})
+		_, v, _ := strings.Cut(genTrailerKV(r), ":")
+		vb := UnCB(v)
+		if k == "x-h" {
+			for i, c := range vb {
+				if (c < 0x20 && c != '\t' && c != '\r' && c != '\n') || c == 0x7f {
+					vb[i] = 'a'
+				}
+			}
+		}
+		hm = " hm=" + CB([]byte(k)) + ":" + CB(vb)
+		if r.Intn(3) == 0 {
+			hm += "," + CB([]byte("x-h")) + ":" + CB([]byte("second value"))
+		}
+	}
+	return fmt.Sprintf("ws k=%s cd=%s rt=%s hd=%s ms=%s %s ea=%s%s%s", kind, codec, genRoute(r), hd, ms, genScript(r, codec), ea, via, hm)
 }
 
 // genStalled: Forward returns (grpc-timeout / request-side error) while a response Send is stalled in the writer
